@@ -348,8 +348,69 @@ def g_case(spec, o):
             f"{g_hdr(o['hdr0'])} {g_Z(o['sign0'])} {g_hdr(o['hdr1'])} {g_Z(o['sign1'])} {rows})")
 
 
+def pil_backed_checks(rng, V, n):
+    """Image objects created from PIL images keep both a PIL image and (after the first read) a cached
+    array; a flip must leave both views reversed, whatever was read before."""
+    import numpy as np
+    from PIL import Image as PILImage
+    from astropy.wcs import WCS
+    from toasty.image import Image
+    done = 0
+    for k in range(n):
+        h, w = rng.randint(2, 9), rng.randint(2, 9)
+        kind = rng.choice(("RGB", "RGBA", "F"))
+        if kind == "F":
+            arr = (np.arange(h * w, dtype=np.float32).reshape(h, w) + 1)
+            pil = PILImage.fromarray(arr, mode="F")
+        else:
+            ch = 3 if kind == "RGB" else 4
+            arr = ((np.arange(h * w * ch).reshape(h, w, ch) * 7 + k) % 251).astype(np.uint8)
+            pil = PILImage.fromarray(arr, mode=kind)
+        wc = WCS(naxis=2)
+        wc.wcs.ctype = ["RA---TAN", "DEC--TAN"]
+        wc.wcs.crval = [30.0, 10.0]
+        wc.wcs.crpix = [1.5, 2.5]
+        sgn = rng.choice((1.0, -1.0))
+        wc.wcs.cd = [[-0.01, 0.0], [0.0, 0.01 * sgn]]
+        img = Image.from_pil(pil, wcs=wc)
+        pre = rng.choice(("asarray", "dtype", "none"))
+        if pre == "asarray":
+            img.asarray()
+        elif pre == "dtype":
+            img.dtype
+        s0 = img.get_parity_sign()
+        op = rng.choice(("flip", "ensure"))
+        if op == "flip":
+            img.flip_parity()
+            flipped = True
+        else:
+            img.ensure_negative_parity()
+            flipped = s0 == 1
+        want = arr[::-1] if flipped else arr
+        got = np.asarray(img.asarray())
+        why = []
+        if got.shape != want.shape or not np.array_equal(got, want):
+            why.append("asarray() rows are not " + ("reversed" if flipped else "unchanged"))
+        try:
+            gp = np.asarray(img.aspil())
+            if gp.shape != want.shape or not np.array_equal(gp, want):
+                why.append("aspil() rows are not " + ("reversed" if flipped else "unchanged"))
+        except Exception as e:  # noqa
+            why.append(f"aspil() raised {e!r}")
+        if img.get_parity_sign() != (-s0 if flipped else s0):
+            why.append("parity sign not " + ("negated" if flipped else "kept"))
+        done += 1
+        if why:
+            V.disagreement("flip_reverses_rows for PIL-backed images (pixels read before the flip)",
+                           dict(kind=kind, shape=[h, w], read_before=pre, op=op, start_sign=s0), "rows reversed in every view",
+                           dict(why=why), True)
+            break
+    return done
+
+
 def run(ctx, V):
     warnings.simplefilter("ignore")
+    n_pil = pil_backed_checks(common.rng_for(ctx["seed"], "C16pil"), V, 60 if ctx["tier"] == "quick" else 400)
     rng = common.rng_for(ctx["seed"], "C16")
     tier = ctx["tier"]
     n_exact = 700 if tier == "quick" else 6000
